@@ -7,6 +7,7 @@ mod checks;
 mod e1;
 mod fields;
 mod fw;
+mod pv;
 
 use fw::{Ctx, ReplayFile, Tier};
 
@@ -58,9 +59,9 @@ fn main() {
         .and_then(|s| s.trim().parse::<i128>().ok())
         .map(|v| v as u64)
         .unwrap_or(1);
-    if std::env::var("RAYON_NUM_THREADS").is_err() {
-        // cases are sharded over worker threads already
-        unsafe { std::env::set_var("RAYON_NUM_THREADS", "1") };
+    if std::env::var("VERIF_NO_EXCLUDE").is_ok() {
+        // replay a case exactly as written, without known-finding exclusions
+        e1::NO_EXCLUDE.store(true, std::sync::atomic::Ordering::Relaxed);
     }
     // keep panics from generated cases quiet; they are caught and classified
     std::panic::set_hook(Box::new(|_| {}));
